@@ -115,6 +115,12 @@ let do_classify b pres t =
    | Some l -> if List.exists (fun c -> c = X87 || c = X87UP) l then Buffer.add_string b "M" else
        List.iter (fun c -> Buffer.add_string b (match c with INTEGER -> "I" | SSE -> "S" | NO_CLASS -> "n" | _ -> "?")) l);
   Buffer.add_string b (if no_straddle t then " straddle=0" else " straddle=1");
+  (* the argument classes of c2mir with fixes/C08-9 (classify_arg_g) *)
+  Buffer.add_string b " mcg=";
+  (match classify_arg_g t with
+   | None -> Buffer.add_string b "M"
+   | Some l -> if List.exists (fun c -> c = CX87 || c = CX87up) l then Buffer.add_string b "M" else
+       List.iter (fun c -> Buffer.add_string b (match c with CInt -> "I" | CSse -> "S" | _ -> "?")) l);
   (* inside the quantifier of the classification theorems? *)
   Buffer.add_string b (if wf_ty t then " wf=1" else " wf=0")
 
